@@ -48,14 +48,23 @@ def instances(tier):
                     if nopt > 6 and bl not in (0, 3):
                         continue
                     out.append((L, f'VH_C09_{kind}_{gt}', [bl, vl, fl], {'weight': 1 + nbytes * bl + 20 * vl}))
+    # TL-B generator (tlb/parser): generated structs + reflection codec against the schema bit layout
+    nbs = [0, 1, 8] if tier == 'quick' else list(range(0, 9))
+    for nb in nbs:
+        out.append((L, 'VH_C09_tlb_A', [nb], {'weight': 20}))
+    out.append((L, 'VH_C09_tlb_U', [0, 0], {'weight': 10}))
+    for nb in nbs:
+        out.append((L, 'VH_C09_tlb_U', [1, nb], {'weight': 20}))
+    for (w, nb, hm) in ([(0, 1, 1), (1, 2, 0)] if tier == 'quick' else [(w, nb, hm) for w in (0, 1) for nb in (0, 1, 8) for hm in (0, 1)]):
+        out.append((L, 'VH_C09_tlb_R', [w, nb, hm], {'weight': 60}))
     return out
 
 
 CHECK = dict(
-    id='C09', pkgs=['liteclient'], init_pkgs=['std:io', 'liteclient'], instances=instances, opts={'budget_s': 1500, 'unwind': 1200},
-    gen=[('harness/gen/gen_c09.py', 'liteclient', 'gen_c09.go')],
+    id='C09', pkgs=['liteclient'], init_pkgs=['std:io', 'boc', 'tlb', 'liteclient'], instances=instances, opts={'budget_s': 1500, 'unwind': 1200},
+    gen=[('harness/gen/gen_c09.py', 'liteclient', 'gen_c09.go'), ('harness/gen/gen_c09_tlb.py', 'liteclient', 'gen_c09_tlb.go')],
     level_text='Translation validation of the TL generator output: tl/parser (current tree) is run natively on lite_api.tl extended with declarations that exercise what it lacks (an optional for every flag bit 0..31 over every builtin type, pointer optionals named "mode", vectors of builtin and declared types, nested declared types, unions with 2 and 5 constructors incl. an empty one, functions returning unions); its output replaces liteclient/generated.go through the build overlay; every generated MarshalTL/UnmarshalTL and the generated request-decoder table is then executed symbolically against the byte layout computed from the schema text, for all field values within the C10 bounds; every generated request METHOD of the test functions (quick: plus three lite-server functions; thorough: all) is run against a stub transport: any value of the result type (incl. the empty constructor of a union: a 4-byte response) laid out per schema comes back as that value, and the bytes handed to the transport are the function id followed by the schema layout of the request.',
-    level_note='This decides "the emitted code implements the schema" for this fixed family of declarations, not for all schemas; parser/lexer behaviour and text/template are exercised only through their output. The TL-B generator (tlb/parser) and the determinism clause are not decided by a solver (determinism of two generator runs is recorded as a note in the generator log).',
+    level_note='This decides "the emitted code implements the schema" for this fixed family of declarations, not for all schemas; parser/lexer behaviour and text/template are exercised only through their output. The determinism clause is not decided by a solver (determinism of two generator runs is recorded as a note in the generator log).',
     bounds={'schema family': 'lite_api.tl + 13 test declarations + 3 test functions', 'byte string lengths': [0, 3, 254], 'vector lengths': [0, 2]},
-    outside_claim=['"for all schemas": programs are a fixed family here', 'TL-B generator (tlb/parser) output', 'generating twice gives identical output (textual comparison, not a solver verdict)', 'the transport below liteServerRequest (replaced by a stub through the build overlay)', 'lite-server error responses of request methods'],
+    outside_claim=['"for all schemas": programs are a fixed family here', 'TL-B generator beyond the 4-declaration family (parametrised combinators, hashmaps, implicit fields, conditional fields)', 'generating twice gives identical output (textual comparison, not a solver verdict)', 'the transport below liteServerRequest (replaced by a stub through the build overlay)', 'lite-server error responses of request methods'],
 )
